@@ -478,6 +478,7 @@ type session struct {
 	allowedB  []int  // per prefix k: next tip
 	window    []bool // per prefix k: the triggering block of a reorganisation is stored, its marker is not yet
 	crashes   int
+	restarts  int
 	reorgs    []reorgSpan // the reorganising arrivals of the journal
 }
 
@@ -920,7 +921,52 @@ func (s *session) restart(st *kv) *restartResult {
 	}
 	r.ans = fmt.Sprintf("boot=ok init=%s rec=%s recunits=%s best=%s root=%d", sc.unitsText(initUnits), rc, sc.unitsText(recUnits),
 		sc.bid(best.BlockHash()), sc.rootOf(n))
+	s.restarts++
+	_, marked := st.C[string(dbkey.ReOrg())]
+	if marked || s.restarts%3 == 0 {
+		s.viaReceive(r, st, sc.unitsText(recUnits), best)
+	}
 	return r
+}
+
+// viaReceive: the production trigger of the recovery. Nothing in a running node calls Recover(): it is run
+// lazily by ChainService.Receive on the first actor message. A second node is booted on the same crash state
+// and is only sent a message (GetBestBlock, which Receive answers itself) through the real Receive; it must
+// have written exactly the units of the direct Recover() and answer with the same best block. That node
+// replaces the first one: everything the property demands is then judged on the node that was recovered the
+// way a production node is. (Only after the direct Recover() succeeded: Receive exits the process on failure.)
+func (s *session) viaReceive(r *restartResult, st *kv, recText string, best *types.Block) {
+	sc := s.sc
+	dir := filepath.Join(s.dir, "crashB")
+	os.RemoveAll(dir)
+	st.writeDir(dir)
+	var n2 *node
+	var resp interface{}
+	_, pan := vh.Guard(func() string {
+		n2 = s.w.boot(dir)
+		resp = chain.VerifC06Receive(n2.cs, &message.GetBestBlock{})
+		return ""
+	})
+	s.run.Count("restarts-through-Receive")
+	if pan || n2 == nil {
+		s.fail("restart through ChainService.Receive panics where the direct Recover() succeeds: "+r.ans, "Receive")
+		return
+	}
+	us := append([]unit{}, n2.rec.units...)
+	for i := range us {
+		us[i], _ = sc.canon(us[i])
+	}
+	n2.rec.units = nil
+	got := "no-response"
+	if rsp, ok := resp.(message.GetBestBlockRsp); ok && rsp.Err == nil && rsp.Block != nil {
+		got = sc.bid(rsp.Block.BlockHash())
+	}
+	if t := sc.unitsText(us); t != recText || got != sc.bid(best.BlockHash()) {
+		s.fail(fmt.Sprintf("the first message through ChainService.Receive (lazy recovery) wrote %s and answered best=%s; Recover() on the same stores wrote %s and ends at best=%s",
+			t, got, recText, sc.bid(best.BlockHash())), "Receive")
+	}
+	r.n.close()
+	r.n = n2
 }
 
 type crashCtx struct {
@@ -1076,6 +1122,50 @@ func (s *session) crashAll(nested bool, torn bool) {
 	}
 }
 
+// lagAll: crash points *outside* the property's quantifier — the chain DB holds the first k units of the journal,
+// the state DB has lost its units from position l on (two independent stores are only ordered if every state
+// flush is durable before the next chain-DB write is issued). Explored inside the swap window of every
+// reorganisation (marker durable), for every state commit of its roll-forward. The recovery cannot succeed
+// there; what is demanded is fail-stop: the node refuses to come up (executeBlockReco: ErrStateNoMarker), or it
+// comes up coherent — never up on a best block whose state is not there (model: lagging_state_fail_stop).
+func (s *session) lagAll() {
+	for _, sp := range s.reorgs {
+		var sIdx []int
+		for i := sp.from; i < sp.m; i++ {
+			if s.J[i].DB == 'S' {
+				sIdx = append(sIdx, i)
+			}
+		}
+		for _, k := range []int{sp.m + 1, sp.d} {
+			for _, l := range sIdx {
+				t := s.base.clone()
+				for i := 0; i < k; i++ {
+					if s.J[i].DB == 'C' || i < l {
+						t.apply(s.J[i])
+					}
+				}
+				line := fmt.Sprintf("lag %d %d", k, l)
+				s.run.Pending(line)
+				r := s.restart(t)
+				s.op(line, r.ans, true)
+				s.run.Count("lag-points")
+				if r.n == nil || !r.ok {
+					s.run.Count("lag-refused")
+					if r.n != nil {
+						r.n.close()
+					}
+					continue
+				}
+				s.run.Count("lag-came-up")
+				if what := s.invariant(r.n, r.n.stores()); what != "" {
+					s.fail("state DB lagging behind the chain DB: the node came up, and is not coherent: "+what, line)
+				}
+				r.n.close()
+			}
+		}
+	}
+}
+
 func (s *session) crashAt(st *kv, line string, c crashCtx, nested bool) {
 	s.crashes++
 	s.run.Pending(line)
@@ -1169,6 +1259,7 @@ func main() {
 		nested := run.Thorough() || i%2 == 0
 		torn := run.Thorough()
 		s.crashAll(nested, torn)
+		s.lagAll()
 		run.Count("scenario:" + fam)
 		os.RemoveAll(s.dir)
 	}
